@@ -529,7 +529,11 @@ class Intrinsics:
         if P.txns:
             from .interp import MergeAbort
             raise MergeAbort()
-        recv.update(other)
+        if isinstance(other, dict):
+            recv.update(other)
+        else:
+            for k, v in P.iterate(other):
+                recv[P.hashable(k)] = v
 
     def m_dict_pop(self, P, recv, k, *d):
         if P.txns:
